@@ -48,6 +48,15 @@ CHECKS = {
     "C19": dict(engine="e1-conform", technique="bounded-exhaustive enumeration of traced parses with a recording ParseTracer; nesting, outcomes and (without memo) the exact event sequence compared with the reference",
                 text="A quarter of the C01 trees plus the memo, left-recursive and hook families: result with the recording tracer and with parse_with_trace equals the plain result, events are properly nested with the reference's outcome per (rule, offset), and for grammars without memo/leftrec the whole event sequence equals the reference's.",
                 ref="§3 C19"),
+    "C12": dict(engine="tools-c12", technique="bounded-exhaustive enumeration of layout and spelling variants of corpus grammars through the real front end; Debug of the real Grammar compared with the reference structure rendered in the same form",
+                text="~1000 (thorough: ~6000) grammars - samples of every E1 corpus, every tree up to the node bound over two atoms with every operator (precedence), redundant parentheses, every ordered selection of up to 3 directives, @char/@extern forms - each in its canonical text, with each of 7 fillers (spaces, newlines, CRLF, comments) in all gaps at once, every single gap deviation and (thorough) every pair; plus every documented spelling of each pool character in literal, inner-literal, range-start, range-end and @char positions: the Debug structure must be the denoted one and escape spellings must generate the same code as the canonical spelling.",
+                ref="§3 C12", note="Trusted: engine/refpeg/src/astdebug.rs as the reading of the syntax reference. Bounded: deviations of more than two gaps at once; characters outside the pool."),
+    "C16": dict(engine="tools-c16", technique="exhaustive enumeration of grammars x settings x integration routes within a corpus, each route in K fresh processes, byte comparison with the library output; peginate! compiled side by side with the library output and run on every input",
+                text="126 (thorough: ~1000) grammars incl. one with 60 multi-type/memoized/exported rules x 3 derive sets x 2 prefixes x routes {library again, library process, CLI, Compile::file, Compile::directory} x K processes: generated code byte-identical after header/prefix; the macro expansion of 40 grammars gives the same Debug results and root type layout as the library output on every input. The hash-seed dimension is sampled (K processes), everything else is enumerated.",
+                ref="§3 C16", note="Stated limit: std's per-process hash seed cannot be owned by the harness; K fresh processes sample it. Trusted: rustc for the macro route."),
+    "C17": dict(engine="tools-c17", technique="fixpoint computation stage1/stage2/stage3 compared token-wise, plus differential run of the shipped and the regenerated front end over the enumerated text corpora",
+                text="Stage 2 (tree's CLI on grammar.ebnf, through rustfmt as bootstrap.sh does) must be token-identical to the shipped generated.rs including the checksum line; a generator built around stage 2 in a scratch copy must regenerate stage 2 exactly; and both front ends must give the same Debug(Result) on every text of the C12/C15 corpora (75k quick, ~1M thorough; valid and invalid).",
+                ref="§3 C17", note="Trusted: proc_macro2 tokenisation for the comparison; rustfmt for the shipped-vs-stage-2 comparison."),
     "C15": dict(engine="tools-c15", technique="bounded-exhaustive enumeration of grammar texts (all token strings up to a length, all single-token mutations of corpus grammars, a restriction catalogue in every context) through the real front end + code generator in crash-isolated workers; CLI and Compile exit paths compared with the library answer",
                 text="Every string of up to 4 (thorough: 5) tokens over a 22-token alphabet, every delete/duplicate/replace mutation of ~50 (thorough: ~240) corpus grammars with a 40-token menu, and a catalogue that places a violation of each documented restriction in every context under every derive set: the library answers with code or an error value (a worker that panics, aborts or stalls is pinned to the text through a progress file), catalogue entries are rejected, must-accept entries are accepted, and the exit status of peginator-cli, Compile::run and run_exit_on_error agrees with the library answer.",
                 ref="§3 C15", note="Trusted: the worker isolation (progress file, 20 s stall watchdog), the catalogue as a faithful reading of the documented restrictions. Not judged: whether accepted code compiles (C03)."),
